@@ -6,6 +6,7 @@ c fresh file name per registration, raise on duplicates; save reaches register u
 d save/load symmetry; metadata persisted whenever a pool is registered; version validity direction
 """
 import ast
+import re
 from sa.model import unparse, norm_stmt, call_name, kwarg, walk_no_nested, AnalysisError, str_consts
 from sa.cfg import CFG
 from sa import guards as G
@@ -110,6 +111,8 @@ def run(chk, repo):
                 if p == 'exception':
                     # the registered value is the one CleavageParams normalises ('auto'); the digest must use that value
                     same = flow.classify(f, b)[0] == 'clean' and tb == 'cleavage_params.exception'
+                elif tb == f"cleavage_params.{'enzyme' if p == 'rule' else p}":
+                    same = True       # digested with the attribute of the very object that is registered: equal by construction
                 else:
                     same = ta == tb
                     if same:
@@ -166,18 +169,39 @@ def run(chk, repo):
     chk.extra['indexdir_consumers'] = [f.qual for f in consumers]
     vm = repo.func(IDX + 'IndexDir.validate_metadata')
     chk.uses(vm)
-    body = [norm_stmt(s) for s in ast.walk(vm.node) if isinstance(s, (ast.Assign, ast.If, ast.Raise, ast.Return))]
-    ok = 'cur_version = MetaVersion()' in body and 'if not cur_version.is_valid(self.metadata.version)' in body and \
-        any(b.startswith('raise err.InvalidIndexError(') for b in body)
+    from sa import sem
+    nvm = sem.nf(repo, vm)
+    # every way out of validate_metadata that is not the InvalidIndexError knows MetaVersion().is_valid(self.metadata.version) to be true
+    exits = sem.facts_where(nvm, lambda st: isinstance(st, ast.Return))
+    cfgv = CFG(nvm)
+    fall = cfgv.must_facts()
+    outs = [fx for _st, fx in exits]
+    for (lbl, pid) in cfgv.pred[cfgv.exit]:
+        if lbl == 'fallthrough':
+            n_ = cfgv.nodes[pid]
+            fx_ = fall.get(pid)
+            if fx_ is not None and n_.kind == 'test':
+                outs.append(fx_)          # approximated: the test node's entry facts (no explicit return)
+    raises = [n for n in ast.walk(nvm) if isinstance(n, ast.Raise) and 'InvalidIndexError' in unparse(n)]
+    def valid_known(fx):
+        if fx is None:
+            return True
+        return any(fx.known(t_) is True for t_ in ('MetaVersion().is_valid(self.metadata.version)', 'cur_version.is_valid(self.metadata.version)'))
+    rfx = sem.facts_where(nvm, lambda st: isinstance(st, ast.Raise))
+    ok = bool(raises) and bool(rfx) and all(fx is None or any(fx.known(t_) is False for t_ in ('MetaVersion().is_valid(self.metadata.version)', 'cur_version.is_valid(self.metadata.version)'))
+                                            for _st, fx in rfx) \
+        and all(valid_known(fx) for _st, fx in exits) and \
+        any('is_valid(self.metadata.version)' in unparse(c) and unparse(c.func.value) in ('MetaVersion()', 'cur_version') for c in ast.walk(nvm) if isinstance(c, ast.Call) and call_name(c) == 'is_valid')
     chk.ob('C12.b', 'validate_metadata raises unless current.is_valid(recorded)', vm.where, ok,
            'validate_metadata does not evaluate cur_version.is_valid(self.metadata.version) (direction matters: the recorded moPepGen '
            'version must be the one compared with the minimal version)', key=vm.qual + '::direction', fn=vm.qual)
     iv = repo.func('version:MetaVersion.is_valid')
     chk.uses(iv)
-    t = unparse(iv.node.body[-1])
-    ok = 'self.python == version.python' in t and 'self.biopython == version.biopython' in t and 'self.is_valid_mpg_version(version.mopepgen)' in t \
-        and ' or ' not in t
-    chk.ob('C12.b', 'is_valid = same python and biopython and recorded moPepGen >= minimal', iv.where, ok, f"is_valid: {t}", key=iv.qual, fn=iv.qual)
+    lits = sem.accept_literals(sem.nf(repo, iv)) or set()
+    want_iv = {sem.lit('self.python == version.python'), sem.lit('self.biopython == version.biopython'), sem.lit('self.is_valid_mpg_version(version.mopepgen)')}
+    ok = want_iv <= lits
+    chk.ob('C12.b', 'is_valid = same python and biopython and recorded moPepGen >= minimal', iv.where, ok,
+           f"is_valid can return True without {sorted(want_iv - lits)}", key=iv.qual, fn=iv.qual)
     mv = repo.func('version:MetaVersion.is_valid_mpg_version')
     t = unparse(mv.node)
     chk.ob('C12.b', 'recorded moPepGen version compared >= MINIMAL_VERSION', mv.where,
@@ -188,16 +212,40 @@ def run(chk, repo):
     chk.rule('C12.c', 'fresh registration index; duplicate raises; save registers unless overriding', 4)
     rg = repo.func(IDX + 'IndexMetadata.register_canonical_pool')
     chk.uses(rg)
-    t = [norm_stmt(s) for s in ast.walk(rg.node) if isinstance(s, (ast.Assign, ast.If, ast.Raise, ast.Return, ast.Expr))]
-    ok = 'if self.get_canonical_pool(cleavage_params)' in t and isinstance(rg.node.body[1], ast.If) and G.block_leaves(rg.node.body[1].body) \
-        and 'index = max((it.index for it in self.canonical_pools)) + 1 if self.canonical_pools else 1' in t
+    nrg = sem.nf(repo, rg)
+    chains = sem.block_chains(nrg)
+    ctor_sites = sem.facts_where(nrg, lambda st: sem.own_stmt(st) and bool(sem.calls_in_stmt(st, 'CanonicalPoolMetadata')))
+    app_sites = sem.facts_where(nrg, lambda st: sem.own_stmt(st) and any(unparse(c.func.value) == 'self.canonical_pools' for c in sem.calls_in_stmt(st, 'append')))
+    dup_known = all(sem.known(fx, 'not self.get_canonical_pool(cleavage_params)') is True for _st, fx in ctor_sites + app_sites)
+    has_raise = any(isinstance(n, ast.Raise) for n in ast.walk(nrg))
+
+    def gen_norm(t_):
+        return re.sub(r'\b(\w+)\.index for \1 in', '_.index for _ in', t_)
+    idx_txt = None
+    fn_txt = None
+    if len(ctor_sites) == 1:
+        c0 = sem.calls_in_stmt(ctor_sites[0][0], 'CanonicalPoolMetadata')[0]
+        ie = kwarg(c0, 'index')
+        if ie is not None:
+            idx_txt = gen_norm(unparse(sem.expand_names(nrg, ctor_sites[0][0], ie, chains=chains)))
+        fe = kwarg(c0, 'filename')
+        if fe is not None:
+            fe = sem.expand_names(nrg, ctor_sites[0][0], fe, chains=chains)
+            if isinstance(fe, ast.JoinedStr):
+                fn_txt = gen_norm(fstr(fe))
+            elif isinstance(fe, ast.Call) and call_name(fe) == 'format' and isinstance(fe.func.value, ast.Constant) and isinstance(fe.func.value.value, str):
+                tpl = fe.func.value.value
+                for kw in fe.keywords:
+                    tpl = re.sub(r'\{' + re.escape(kw.arg) + r'(:[^}]*)?\}', lambda m_: '{' + gen_norm(unparse(kw.value)) + (m_.group(1) or '') + '}', tpl)
+                fn_txt = tpl
+    want_idx = 'max((_.index for _ in self.canonical_pools)) + 1 if self.canonical_pools else 1'
+    ok = dup_known and has_raise and idx_txt == want_idx
     chk.ob('C12.c', 'register: raise if the parameters exist; index = max+1', rg.where, ok,
-           f"registration logic altered: {t[:4]}", key=rg.qual + '::fresh-index', fn=rg.qual)
-    c = [x for x in G.find_calls(rg.node, 'CanonicalPoolMetadata')]
-    ok = len(c) == 1 and fstr(kwarg(c[0], 'filename')) == 'canonical_peptides_{index:03}.pkl' and unparse(kwarg(c[0], 'index')) == 'index' \
-        and unparse(kwarg(c[0], 'cleavage_params')) == 'cleavage_params' and 'self.canonical_pools.append(pool)' in t
+           f"registration logic altered: index = {idx_txt}; duplicate known absent at registration: {dup_known}", key=rg.qual + '::fresh-index', fn=rg.qual)
+    ok = len(ctor_sites) == 1 and fn_txt == 'canonical_peptides_{' + want_idx + ':03}.pkl' and len(app_sites) == 1 and \
+        unparse(kwarg(sem.calls_in_stmt(ctor_sites[0][0], 'CanonicalPoolMetadata')[0], 'cleavage_params')) == 'cleavage_params'
     chk.ob('C12.c', 'file name derived from the fresh index; entry appended', rg.where, ok,
-           'pool file name is not derived from the fresh index / entry not appended (another entry\'s file can be overwritten)',
+           f"pool file name is not derived from the fresh index / entry not appended (another entry's file can be overwritten): file name '{fn_txt}'",
            key=rg.qual + '::filename', fn=rg.qual)
     sv = repo.func(IDX + 'IndexDir.save_canonical_peptides')
     chk.uses(sv)
